@@ -16,6 +16,12 @@
 //   events: one item per callback, each followed by a comma: <severity>:M<text> for a diag_log line, <severity>:TL for the
 //           'maximum runtime reached' message (recognised by the text logmessage::runtime::MaximumRuntimeReached formats for this
 //           limit, whatever the location in front of it), -1:R for the result text of type 'p', <severity>:- for everything else
+//
+// C API histories over SEVERAL instances in one process (C11): every instance created with its OWN time limit (0 = none).
+// stdin:  "mapi;<tick_us>;<max_runtime_ms>:<full|basic>,<max_runtime_ms>:<full|basic>,...\t<cmd>@<cmd>@..."
+//   cmd: C<i> create instance i | D<i> destroy it | K<i>:<hex type char>:<hex text> | G<i>:<hex text> | Q<i> | J<us>
+// stdout: obs|obs|...\t      obs: C | D | K.. / G.. / Q.. / J as above; the 'maximum runtime reached' message is recognised for the
+//   limit of EVERY instance of the line (the property is about when a run ends, not about the number the message prints)
 #define VH_VIRTUAL_CLOCK
 #include "sqfrt.hpp"
 #include "export/sqfvm.h"
@@ -138,13 +144,10 @@ static void api_log(void*, void*, int32_t sev, const char* msg, uint32_t len)
     else g_api_events += "-";
     g_api_events += ",";
 }
-static std::string api_history(long max_ms, long tick, const std::string& set, const std::vector<std::string>& cmds)
+// what the message of the limit looks like behind its location, for the limit an instance is created with (the conversion
+// from float seconds may round to a neighbouring millisecond)
+static void api_add_tl_tails(long max_ms)
 {
-    vh::g_clock_ns = 0;
-    vh::g_clock_tick_ns = tick * 1000;
-    // what the message of the limit looks like behind its location, for the limit the instance is created with (the conversion
-    // from float seconds may round to a neighbouring millisecond)
-    g_api_tl_tails.clear();
     for (long ms = std::max(0L, max_ms - 1); ms <= max_ms + 1; ms++)
     {
         LogLocationInfo loc(std::string(), 0, 0);
@@ -152,6 +155,66 @@ static std::string api_history(long max_ms, long tick, const std::string& set, c
         std::string pre = loc.format();
         g_api_tl_tails.push_back(ref.size() > pre.size() ? ref.substr(pre.size()) : ref);
     }
+}
+// one sqfvm_call (K) / sqfvm_load_config (G) on an instance: <K|G><return>:<status after>:<clock before>-<after>:<events>
+static std::string api_one_call(void* inst, char kind, const std::string& ty, const std::string& text, long k)
+{
+    std::string buf = text; buf.push_back('\0');
+    g_api_events.clear();
+    long long t0 = vh::g_clock_ns / 1000;
+    long r = kind == 'K' ? (long)sqfvm_call(inst, (void*)(intptr_t)k, ty.empty() ? '\0' : ty[0], buf.data(), (uint32_t)text.size())
+                         : (long)sqfvm_load_config(inst, buf.data(), (uint32_t)text.size());
+    long long t1 = vh::g_clock_ns / 1000;
+    int st = (int)sqfvm_status(inst);
+    return std::string(1, kind) + std::to_string(r) + ":" + std::to_string(st) + ":" + std::to_string(t0) + "-" + std::to_string(t1) + ":" + g_api_events;
+}
+// several instances in one process, each with its own limit
+static std::string mapi_history(long tick, const std::vector<std::pair<long, std::string>>& insts, const std::vector<std::string>& cmds)
+{
+    vh::g_clock_ns = 0;
+    vh::g_clock_tick_ns = tick * 1000;
+    g_api_tl_tails.clear();
+    for (auto& in : insts) api_add_tl_tails(in.first);     // also for 'no limit': an abort on such an instance prints 0 ms
+    std::vector<void*> live(insts.size(), nullptr);
+    std::string obs;
+    bool first = true;
+    long k = 0;
+    for (auto& c : cmds)
+    {
+        if (c.empty()) continue;
+        if (!first) obs += "|";
+        first = false;
+        k++;
+        if (c[0] == 'J') { vh::g_clock_ns += std::stoll(c.substr(1)) * 1000LL; obs += "J"; continue; }
+        auto a = split(c.substr(1), ':');
+        size_t i = a.empty() || a[0].empty() ? insts.size() : (size_t)std::stoul(a[0]);
+        if (i >= insts.size()) { obs += "BADCMD"; continue; }
+        if (c[0] == 'C')
+        {
+            if (live[i]) { obs += "BADCMD"; continue; }
+            float secs = (float)insts[i].first / 1000.0f;
+            live[i] = insts[i].second == "basic" ? sqfvm_create_instance_basic((void*)(intptr_t)(100 + i), api_log, secs)
+                                                 : sqfvm_create_instance((void*)(intptr_t)(100 + i), api_log, secs);
+            obs += live[i] ? "C" : "CFAILED";
+            continue;
+        }
+        if (!live[i]) { obs += "BADCMD"; continue; }
+        if (c[0] == 'D') { sqfvm_destroy_instance(live[i]); live[i] = nullptr; obs += "D"; }
+        else if (c[0] == 'Q') { obs += "Q" + std::to_string(sqfvm_status(live[i])); }
+        else if ((c[0] == 'K' && a.size() == 3) || (c[0] == 'G' && a.size() == 2))
+            obs += api_one_call(live[i], c[0], c[0] == 'K' ? unhex(a[1]) : std::string(), unhex(a.back()), k);
+        else obs += "BADCMD";
+    }
+    for (auto& p : live) if (p) sqfvm_destroy_instance(p);
+    for (auto& ch : obs) if (ch == '\t') ch = ' ';
+    return obs + "\t";
+}
+static std::string api_history(long max_ms, long tick, const std::string& set, const std::vector<std::string>& cmds)
+{
+    vh::g_clock_ns = 0;
+    vh::g_clock_tick_ns = tick * 1000;
+    g_api_tl_tails.clear();
+    api_add_tl_tails(max_ms);
     float secs = (float)max_ms / 1000.0f;
     void* inst = set == "basic" ? sqfvm_create_instance_basic((void*)7, api_log, secs) : sqfvm_create_instance((void*)7, api_log, secs);
     if (!inst) return "NOINSTANCE\t";
@@ -170,16 +233,7 @@ static std::string api_history(long max_ms, long tick, const std::string& set, c
         {
             auto a = split(c.substr(1), ':');
             if (a.size() != (c[0] == 'K' ? 2u : 1u)) { obs += "BADCMD"; continue; }
-            std::string ty = c[0] == 'K' ? unhex(a[0]) : std::string();
-            std::string text = unhex(a.back());
-            std::string buf = text; buf.push_back('\0');
-            g_api_events.clear();
-            long long t0 = vh::g_clock_ns / 1000;
-            long r = c[0] == 'K' ? (long)sqfvm_call(inst, (void*)(intptr_t)k, ty.empty() ? '\0' : ty[0], buf.data(), (uint32_t)text.size())
-                                 : (long)sqfvm_load_config(inst, buf.data(), (uint32_t)text.size());
-            long long t1 = vh::g_clock_ns / 1000;
-            int st = (int)sqfvm_status(inst);
-            obs += std::string(1, c[0]) + std::to_string(r) + ":" + std::to_string(st) + ":" + std::to_string(t0) + "-" + std::to_string(t1) + ":" + g_api_events;
+            obs += api_one_call(inst, c[0], c[0] == 'K' ? unhex(a[0]) : std::string(), unhex(a.back()), k);
         }
         else obs += "BADCMD";
     }
@@ -202,6 +256,21 @@ int main()
             std::string set = cfg[3];
             auto cmds = split(f[1], '@');
             auto out = forked([&]() -> std::string { return api_history(max_ms, tick, set, cmds); }, 20000, MEM_MB);
+            if (out.find('\t') == std::string::npos) out += "\t";
+            std::cout << out << "\n";
+            continue;
+        }
+        if (cfg.size() == 3 && cfg[0] == "mapi")
+        {
+            long tick = std::stol(cfg[1]);
+            std::vector<std::pair<long, std::string>> insts;
+            for (auto& e : split(cfg[2], ','))
+            {
+                auto lv = split(e, ':');
+                if (lv.size() == 2) insts.push_back({ std::stol(lv[0]), lv[1] });
+            }
+            auto cmds = split(f[1], '@');
+            auto out = forked([&]() -> std::string { return mapi_history(tick, insts, cmds); }, 12000, MEM_MB);
             if (out.find('\t') == std::string::npos) out += "\t";
             std::cout << out << "\n";
             continue;
